@@ -6,7 +6,7 @@ import struct
 import subprocess
 import sys
 
-_proc = None
+_procs = {}
 
 
 def _send(f, obj):
@@ -24,16 +24,17 @@ def _recv(f):
     return pickle.loads(f.read(n))
 
 
-def client_call(req):
-    """Send one request to this process's restore server (started lazily)."""
-    global _proc
-    if _proc is None or _proc.poll() is not None:
+def client_call(req, hashseed="random"):
+    """Send one request to this process's restore server for the given PYTHONHASHSEED (started lazily)."""
+    proc = _procs.get(hashseed)
+    if proc is None or proc.poll() is not None:
         env = dict(os.environ)
-        env["PYTHONHASHSEED"] = "random"
-        _proc = subprocess.Popen([sys.executable, os.path.abspath(__file__)], stdin=subprocess.PIPE,
-                                 stdout=subprocess.PIPE, env=env)
-    _send(_proc.stdin, req)
-    return _recv(_proc.stdout)
+        env["PYTHONHASHSEED"] = str(hashseed)
+        proc = subprocess.Popen([sys.executable, os.path.abspath(__file__)], stdin=subprocess.PIPE,
+                                stdout=subprocess.PIPE, env=env)
+        _procs[hashseed] = proc
+    _send(proc.stdin, req)
+    return _recv(proc.stdout)
 
 
 def serve():
@@ -52,6 +53,13 @@ def serve():
             return
         try:
             kernel.set_ctx(kernel.Ctx(record=False))
+            if req.get("kind") == "call":
+                import importlib
+                seams.reset_shared_defaults()
+                fn = getattr(importlib.import_module(req["module"]), req["func"])
+                _send(fout, {"result": fn(*req["args"]), "hashseed": os.environ.get("PYTHONHASHSEED"),
+                             "pid": os.getpid()})
+                continue
             mab = pickle.loads(req["pickle"])
             s = Session(req["cfg"], mab=mab)
             s.fitted, s.d, s.n_rows, s.has_binarizer = req["state"]
